@@ -115,6 +115,14 @@ def apply_edit(file: Any, kind: str) -> bool:
                 return t.raw_text != old
         file.raw_directives.append(models.Close.from_value(datetime.date(2001, 2, 3), 'Assets:New'))
         return True
+    if kind == 'comment':
+        # re-format an existing comment (its text changes, its line end must not)
+        for t in O.store_tokens(file.token_store):
+            if type(t).__name__ in ('InlineComment', 'BlockComment') and '\n' not in t.raw_text:
+                old = t.raw_text
+                t.value = 'edited'
+                return t.raw_text != old
+        return False
     if kind == 'same':
         for t in O.store_tokens(file.token_store):
             if type(t).__name__ == 'Account':
@@ -207,7 +215,7 @@ def _run(case: dict, res: Result, tmp: str) -> Result:
         if mode == 'single':
             with ed.edit_file(arg) as f:
                 for e in edits:
-                    if e['kind'] in ('append', 'tokval', 'same', 'read'):
+                    if e['kind'] in ('append', 'tokval', 'same', 'read', 'comment'):
                         if apply_edit(f, e['kind']):
                             changed.add(os.path.normpath(root))
                 if will_raise:
@@ -224,7 +232,7 @@ def _run(case: dict, res: Result, tmp: str) -> Result:
                     if not names:
                         break
                     name = names[e.get('file', 0) % len(names)]
-                    if e['kind'] in ('append', 'tokval', 'same', 'read'):
+                    if e['kind'] in ('append', 'tokval', 'same', 'read', 'comment'):
                         if apply_edit(fs[key_of(name)], e['kind']):
                             changed.add(name)
                     elif e['kind'] == 'remove':
@@ -258,7 +266,7 @@ def _run(case: dict, res: Result, tmp: str) -> Result:
                 if not names:
                     break
                 name = names[e.get('file', 0) % len(names)]
-            if e['kind'] in ('append', 'tokval', 'same', 'read'):
+            if e['kind'] in ('append', 'tokval', 'same', 'read', 'comment'):
                 apply_edit(models_h[name], e['kind'])
             elif e['kind'] == 'remove':
                 removed_h.add(name)
@@ -287,7 +295,11 @@ def _run(case: dict, res: Result, tmp: str) -> Result:
             if '\r' in texts[name]:
                 any_cr = True
                 classes.add('cr-content-edited')
-            if b1 != expected_text[name].encode('utf-8'):
+            # independent of the library's own tokenisation: none of these edits touches a line end, so every carriage return must survive
+            if b1.count(b'\r') < b0.count(b'\r'):
+                res.bad('content:carriage-returns-lost', f'{name}: the file had {b0.count(13)} carriage returns before the edit and has {b1.count(13)} after; '
+                        f'before {b0[:200]!r} after {b1[:200]!r}')
+            elif b1 != expected_text[name].encode('utf-8'):
                 lost_cr = texts[name].count('\r') - b1.count(b'\r')
                 res.bad('content:cr-lost' if lost_cr > 0 and b1.replace(b'\r', b'') == expected_text[name].replace('\r', '').encode('utf-8') else 'content',
                         f'{name}: after the edit the file holds {b1[:300]!r}, expected {expected_text[name].encode("utf-8")[:300]!r}')
@@ -330,7 +342,7 @@ NAMES = ['main.bean', 'a.bean', 'ab.bean', 'sub/c.bean', 'sub/dd.bean', 'sub/dee
 
 
 def _build(tier: str):
-    cfg = L.Cfg(max_dirs=3, comments=0.2)
+    cfg = L.Cfg(max_dirs=3, comments=0.35, inline=0.4)
 
     def build(rnd: Any) -> dict:
         g = L.G(rnd, cfg)
@@ -344,7 +356,7 @@ def _build(tier: str):
         files = {}
         cycle = False
         for name in names:
-            c = L.Cfg(max_dirs=3, comments=0.2, crlf={'lf': 0.0, 'crlf': 1.0, 'mixed': 0.4}[style])
+            c = L.Cfg(max_dirs=3, comments=0.35, inline=0.4, crlf={'lf': 0.0, 'crlf': 1.0, 'mixed': 0.4}[style])
             gg = L.G(rnd, c)
             incs = []
             lines_groups = []
@@ -379,7 +391,7 @@ def _build(tier: str):
         # globs must match something: '??.bean' needs a two-letter file in that directory
         edits = []
         for _ in range(g.pick([0, 1, 1, 2, 3])):
-            k = g.pick(['append', 'tokval', 'tokval', 'same', 'read'] + ([] if single else ['remove', 'add']))
+            k = g.pick(['append', 'tokval', 'tokval', 'comment', 'comment', 'same', 'read'] + ([] if single else ['remove', 'add']))
             e: dict = {'kind': k, 'file': g.n(0, 5)}
             if k == 'add':
                 e['name'] = g.pick(['new.bean', 'sub/new.bean', 'brand/new/x.bean'])
